@@ -1452,8 +1452,15 @@ impl ProtocolState {
                 self.encoder.reset(packet, &encode_context)?;
             }
 
-            let packet = &self.operations.get(&self.current_operation.unwrap()).unwrap().packet;
+            let current_operation_id = self.current_operation.unwrap();
+            if !self.operations.contains_key(&current_operation_id) {
+                // the operation was failed (ack timeout) while its follow-up packet was being encoded; part of that
+                // packet may already be on the wire, so the only safe recovery is to fail the connection
+                error!("[{} ms] service_queue - current operation {} no longer exists", self.elapsed_time_ms, current_operation_id);
+                return Err(GneissError::new_internal_state_error("current operation no longer exists"));
+            }
 
+            let packet = &self.operations.get(&current_operation_id).unwrap().packet;
 
             let encode_result = self.encoder.encode(packet, context.to_socket)?;
             if encode_result == EncodeResult::Complete {
